@@ -128,6 +128,7 @@ pub fn observe(ase: &AsepriteFile, lim: &Limits) -> Value {
     o.insert("tidx2".into(), ase.pixel_format().transparent_color_index().map_or(json!([]), |t| json!([t])));
     o.insert("indexed".into(), json!(ase.is_indexed_color()));
     let render_ok = w * h <= lim.max_canvas;
+    o.insert("render_ok".into(), json!(render_ok));
 
     let frames_s = sample_idx(nf, lim.max_cels);
     let layers_s = sample_idx(nl, lim.max_cels);
@@ -162,8 +163,16 @@ pub fn observe(ase: &AsepriteFile, lim: &Limits) -> Value {
         o.insert("layers".into(), json!(ls));
     }
     // visibility separately (recursive walk: stack overflow candidates are process-level)
-    if let Some(v) = sw.guard("layer.is_visible", || (0..nl).map(|i| ase.layer(i).is_visible()).collect::<Vec<_>>()) {
-        o.insert("visible".into(), json!(v));
+    if nl <= 4096 {
+        if let Some(v) = sw.guard("layer.is_visible", || (0..nl).map(|i| ase.layer(i).is_visible()).collect::<Vec<_>>()) {
+            o.insert("visible".into(), json!(v));
+        }
+    } else {
+        // very many layers: the walk is O(depth) per layer, so only a sample (incl. the last = deepest ones) is taken
+        let ids: Vec<u32> = (0..64).chain((nl / 2)..(nl / 2 + 8)).chain((nl - 64)..nl).collect();
+        if let Some(v) = sw.guard("layer.is_visible", || ids.iter().map(|i| (*i, ase.layer(*i).is_visible())).collect::<Vec<_>>()) {
+            o.insert("visible_sample".into(), json!(v));
+        }
     }
     if let Some(v) = sw.guard("layers.iter", || ase.layers().map(|l| l.id()).collect::<Vec<_>>()) {
         o.insert("iter_ids".into(), json!(v));
